@@ -86,8 +86,12 @@
 
 use crate::Identity;
 
+#[cfg(all(any(test, feature = "test-utils"), rsactor_verif))]
+use crate::verif::sync::AtomicU64;
+#[cfg(all(any(test, feature = "test-utils"), not(rsactor_verif)))]
+use std::sync::atomic::AtomicU64;
 #[cfg(any(test, feature = "test-utils"))]
-use std::sync::atomic::{AtomicU64, Ordering};
+use std::sync::atomic::Ordering;
 
 #[cfg(any(test, feature = "test-utils"))]
 static DEAD_LETTER_COUNT: AtomicU64 = AtomicU64::new(0);
